@@ -105,7 +105,7 @@ func featureOps(x ids) []op {
 		}
 		return out
 	}
-	return []op{
+	return append([]op{
 		addF("add-point", true, wk.FSpec{ID: x.Q, Kind: wk.KPoint, LL: wk.G(5, 5)}),
 		addF("add-point:tagged", false, wk.FSpec{ID: x.Q, Kind: wk.KPoint, LL: wk.G(5, 6), Tags: T("#amenity", "pub", "name", "q")}),
 		addF("replace-base-point", true, wk.FSpec{ID: x.P[1], Kind: wk.KPoint, LL: wk.G(0, 3), Tags: T("name", "moved")}),
@@ -126,7 +126,8 @@ func featureOps(x ids) []op {
 		addF("add-collection:id-keys", true, wk.FSpec{ID: x.C1, Kind: wk.KCollection, Items: []wk.KV{{"id:" + x.P[0].String(), "s:x"}, {"id:" + x.W0.String(), "s:y"}}, Tags: T("#kind", "set")}),
 		addF("add-collection:string+int", false, wk.FSpec{ID: x.C1, Kind: wk.KCollection, Items: []wk.KV{{"s:k", "i:3"}, {"s:l", "s:v"}}}),
 		addF("add-collection:empty", false, wk.FSpec{ID: x.C1, Kind: wk.KCollection, Tags: T("name", "c")}),
-	}
+		addF("replace-base-collection:unsorted", false, wk.FSpec{ID: x.C0, Kind: wk.KCollection, Items: []wk.KV{{"id:" + x.W0.String(), "s:y"}, {"id:" + x.P[0].String(), "s:x"}, {"id:" + x.P[1].String(), "i:1"}}, Tags: T("name", "c0b")}),
+	}, collectionRepresentatives(x)...)
 }
 
 type target struct {
@@ -261,8 +262,9 @@ func sortedTags(tags b6.Tags, kinds bool) string {
 // dump = worldkit's canonical dump with each feat: section split into
 // tagstr: (keys and value string forms), tags: (with value kinds) and rest:
 // (identity, Get consistency, references, geometry, members, items).
-func (c *world) dump(w b6.World) wk.Dump {
+func (c *world) dump(w b6.World, probes probeSet) wk.Dump {
 	d := wk.DumpWorld(w, &wk.DumpOptions{IDs: c.x.Universe, Queries: c.queries})
+	c.extend(d, w, probes)
 	for _, id := range c.x.Universe {
 		s := id.String()
 		feat, ok := d["feat:"+s]
@@ -473,7 +475,59 @@ func (c *world) classifyDiffs(a, b wk.Dump, edited, reimported *ingest.MutableOv
 		}
 	}
 	findKinds, findTypes := map[string]bool{}, map[string]bool{}
+	// sections added by this check (collections.go)
+	primary := map[string]bool{} // features whose tags / contents differ through FindFeatureByID
+	differs := map[string]bool{}
 	for _, k := range secs {
+		differs[k] = true
+		switch sec := wk.SectionClass(k); sec {
+		case "tagstr", "tags", "rest", "feat":
+			primary[strings.TrimPrefix(k[len(sec):], ":")] = true
+		}
+	}
+	lookups := map[string][]string{} // route|id -> differing lookup APIs
+	for _, k := range secs {
+		route, base, arg, mine := c18Section(k)
+		if !mine {
+			continue
+		}
+		id := b6.FeatureIDFromString(arg)
+		switch base {
+		case "get":
+			if !differs["tagstr:"+arg] && !differs["tags:"+arg] && !differs["feat:"+arg] {
+				out["get-differs:"+info.origin(id)] = true
+			}
+		case "refi":
+			if !primary[arg] {
+				out["reference-i-differs:"+info.origin(id)] = true
+			}
+		case "feat": // a feature as returned by FindFeatures / EachFeature
+			if !primary[arg] {
+				out["feature"+routeName(route)+"-differs:"+info.origin(id)] = true
+			}
+		case "items":
+			if !differs["rest:"+arg] && !differs["feat:"+arg] && (route == "" || !differs["items:"+arg]) {
+				out["collection-items-differ"+routeName(route)+":"+info.origin(id)] = true
+			}
+		case "findvalue", "findvalues":
+			if differs[route+"items:"+arg] || (route != "" && (differs["findvalue:"+arg] || differs["findvalues:"+arg])) {
+				continue // consequence of differing items / already reported for the direct lookup
+			}
+			api := map[string]string{"findvalue": "FindValue", "findvalues": "FindValues"}[base]
+			lookups[routeName(route)+"|"+arg] = append(lookups[routeName(route)+"|"+arg], api)
+		case "tokens":
+			out["tokens-differ:after-"+info.last()] = true
+		}
+	}
+	for k, apis := range lookups {
+		i := strings.IndexByte(k, '|')
+		sort.Strings(apis)
+		out["collection-lookup-differs:"+strings.Join(apis, "+")+k[:i]+":"+collectionClass(edited, b6.FeatureIDFromString(k[i+1:]))] = true
+	}
+	for _, k := range secs {
+		if _, _, _, mine := c18Section(k); mine {
+			continue
+		}
 		sec := wk.SectionClass(k)
 		arg := strings.TrimPrefix(k[len(sec):], ":")
 		switch sec {
@@ -558,7 +612,7 @@ func (c *world) classifyDiffs(a, b wk.Dump, edited, reimported *ingest.MutableOv
 }
 
 // checkState exports, re-imports and compares. Returns the outcome class.
-func (c *world) checkState(r *kit.Result, w *ingest.MutableOverlayWorld, editedDump wk.Dump, info *stateInfo, reps int) string {
+func (c *world) checkState(r *kit.Result, w *ingest.MutableOverlayWorld, editedDump wk.Dump, probes probeSet, info *stateInfo, reps int) string {
 	outcome := "equal"
 	seen := map[string]bool{}
 	for rep := 0; rep < reps; rep++ {
@@ -588,7 +642,7 @@ func (c *world) checkState(r *kit.Result, w *ingest.MutableOverlayWorld, editedD
 			outcome = "import-error"
 			continue
 		}
-		got := c.dump(fresh)
+		got := c.dump(fresh, probes)
 		diffs := wk.Diff(editedDump, got, true)
 		if len(diffs) == 0 {
 			continue
@@ -672,8 +726,9 @@ func runHistory(c *world, r *kit.Result, alphabet []op, first int, depth int, re
 		if private != "" {
 			r.Keys = append(r.Keys, key)
 		}
-		ed := c.dump(w)
-		out := c.checkState(r, w, ed, info, reps)
+		probes := c.probesFor(w)
+		ed := c.dump(w, probes)
+		out := c.checkState(r, w, ed, probes, info, reps)
 		r.AddOutcome(fmt.Sprintf("depth%d:%s", len(path), out))
 		r.Count("last-op:"+alphabet[path[len(path)-1]].class, 1)
 		if sample && r.Sample == nil && len(path) == depth {
@@ -773,14 +828,91 @@ func runValue(c *world, r *kit.Result, v string, reps int) {
 		r.States++
 		r.Transitions++
 		private := ingest.VerifC18OverlayState(w)
-		ed := c.dump(w)
+		probes := c.probesFor(w)
+		ed := c.dump(w, probes)
 		r.Keys = append(r.Keys, hash(private))
-		out := c.checkState(r, w, ed, info, reps)
+		out := c.checkState(r, w, ed, probes, info, reps)
 		r.AddOutcome("value:" + valueClass(v) + ":" + out)
 		r.Count("where:"+s.where, 1)
 	}
 	r.Nontrivial = true
 	r.Sample = map[string]interface{}{"value": v, "places": len(subs)}
+}
+
+// part K: every key sequence of a chunk, in every context of a fixed list of
+// short histories.
+type kCase struct {
+	scheme, ktype, from, to int
+}
+
+const kChunk = 32
+
+func runCollections(c *world, r *kit.Result, kt keyType, seqs [][]int, reps int) {
+	x := c.x
+	other := wk.FSpec{ID: x.C1, Kind: wk.KCollection, Items: []wk.KV{{"s:k", "i:3"}, {"s:l", "s:v"}}}
+	seen := map[string]bool{}
+	for _, seq := range seqs {
+		items := itemsFor(kt, seq)
+		cl := "add-collection:" + kt.name + "-keys:" + orderClass(keysOfItems(items))
+		fc1 := wk.FSpec{ID: x.C1, Kind: wk.KCollection, Items: items}
+		fc1t := wk.FSpec{ID: x.C1, Kind: wk.KCollection, Items: items, Tags: []wk.TagSpec{{"#kind", "set"}, {"name", "n"}}}
+		fc0 := wk.FSpec{ID: x.C0, Kind: wk.KCollection, Items: items, Tags: []wk.TagSpec{{"name", "c0"}}}
+		contexts := []struct {
+			name string
+			ops  []op
+		}{
+			{"add", []op{addF(cl, false, fc1)}},
+			{"replace-base", []op{addF(cl, false, fc0)}},
+			{"add-then-plain-tag", []op{addF(cl, false, fc1), addT("add-tag:plain:overlay-collection", false, x.C1, "p", "x")}},
+			{"add-tagged-then-searchable-tag-and-removal", []op{addF(cl, false, fc1t), addT("add-tag:searchable:overlay-collection", false, x.C1, "#s", "x"), remT("remove-tag:plain:overlay", false, x.C1, "name")}},
+			{"add-other-then-replace-it", []op{addF("add-collection:string+int", false, other), addF(cl, false, fc1)}},
+			{"replace-base-then-tag", []op{addF(cl, false, fc0), addT("add-tag:searchable:base-collection", false, x.C0, "#s", "x")}},
+		}
+		for _, ctx := range contexts {
+			w := ingest.NewMutableOverlayWorld(c.base)
+			info := &stateInfo{}
+			var names []string
+			ok := true
+			for _, o := range ctx.ops {
+				var err error
+				if cls, msg := kit.Catch(func() { err = o.apply(w) }); cls != "" {
+					r.Violate("edit:"+cls, "history: %s · %s\n%s", strings.Join(names, " · "), o.name, msg)
+					ok = false
+					break
+				}
+				if err != nil {
+					r.AddOutcome("K:edit-rejected:" + ctx.name)
+					ok = false
+					break
+				}
+				names = append(names, o.name)
+				info.note(o)
+			}
+			if !ok {
+				continue
+			}
+			info.hist = strings.Join(names, " · ")
+			r.States++
+			r.Transitions++
+			private := ingest.VerifC18OverlayState(w)
+			key := hash(private)
+			if seen[key] {
+				continue
+			}
+			seen[key] = true
+			r.Keys = append(r.Keys, key)
+			probes := c.probesFor(w)
+			ed := c.dump(w, probes)
+			out := c.checkState(r, w, ed, probes, info, reps)
+			r.AddOutcome("K:" + kt.name + "-keys:" + out)
+			r.Count("K:"+kt.name+"-keys:"+orderClass(keysOfItems(items)), 1)
+			r.Count("K:context:"+ctx.name, 1)
+		}
+	}
+	r.Nontrivial = true
+	if len(seqs) > 0 {
+		r.Sample = map[string]interface{}{"key-type": kt.name, "first": seqName(kt, seqs[0]), "last": seqName(kt, seqs[len(seqs)-1]), "contexts": 6}
+	}
 }
 
 func main() {
@@ -798,18 +930,38 @@ func main() {
 		},
 		QuickDeadline: 240e9, ThoroughDeadline: 1500e9, CaseTimeout: 600e9, Chunk: 1,
 		Build: func(tier string) (kit.Space, string) {
-			depth, reps := 2, 2
+			depth, reps, maxLen := 2, 2, 4
 			schemes := []int{1}
 			if tier == "thorough" {
-				depth, reps = 3, 3
+				depth, reps, maxLen = 3, 3, 5
 				schemes = []int{1, 0, 2}
 			}
+			seqs := sequences(4, maxLen)
+			nKeyTypes := len(keyTypes(idsFor(wk.Schemes[1])))
 			var cases []caseDef
 			for _, s := range schemes {
 				for _, v := range valueMenu {
 					cases = append(cases, caseDef{part: "V", scheme: s, value: v})
 				}
 			}
+			var kcases []kCase
+			for _, s := range schemes {
+				for kt := 0; kt < nKeyTypes; kt++ {
+					for from := 0; from < len(seqs); from += kChunk {
+						to := from + kChunk
+						if to > len(seqs) {
+							to = len(seqs)
+						}
+						kcases = append(kcases, kCase{scheme: s, ktype: kt, from: from, to: to})
+					}
+				}
+			}
+			// simplest first: short chunks of all key types and schemes before longer ones
+			sort.SliceStable(kcases, func(i, j int) bool { return kcases[i].from < kcases[j].from })
+			for i, kc := range kcases {
+				cases = append(cases, caseDef{part: "K", scheme: kc.scheme, first: i})
+			}
+			nFeatureOps := len(featureOps(idsFor(wk.Schemes[1])))
 			nOps := len(featureOps(idsFor(wk.Schemes[1]))) + len(tagOps(idsFor(wk.Schemes[1]), coreValues, deepValues))
 			nDeep := 0
 			for _, o := range append(featureOps(idsFor(wk.Schemes[1])), tagOps(idsFor(wk.Schemes[1]), coreValues, deepValues)...) {
@@ -852,11 +1004,20 @@ func main() {
 						return r
 					}
 					c.queries = queriesFor(coreValues)
+					if cd.part == "K" {
+						kc := kcases[cd.first]
+						runCollections(c, &r, keyTypes(c.x)[kc.ktype], seqs[kc.from:kc.to], reps)
+						return r
+					}
 					alphabet := append(featureOps(c.x), tagOps(c.x, coreValues, deepValues)...)
 					runHistory(c, &r, alphabet, cd.first, depth, reps, cd.first%17 == 0)
 					return r
-				}}, fmt.Sprintf("part V: %d values x 28 places x %d ID schemes; part H: all histories of <= %d successful operations over %d operations (level 3: %d-operation reduced alphabet), scheme %s; each export repeated %d times",
-					len(valueMenu), len(schemes), depth, nOps, nDeep, wk.Schemes[schemes[0]].Name, reps)
+				}}, fmt.Sprintf("part V: %d values x 28 places x %d ID schemes; "+
+					"part K: all %d key sequences of length <= %d over 4 ordered keys x %d key types (string, int, feature-id, mixed int+string) x 6 histories (add; replace base collection; add + AddTag; add tagged + searchable AddTag + RemoveTag; add another collection then replace it; replace base + AddTag) x %d ID schemes; "+
+					"part H: all histories of <= %d successful operations over %d operations (%d feature additions incl. %d collections: for string and for int keys one per length 2..4 and order class ascending / descending / unsorted only in first pair / only in last pair / only in the middle / equal keys; level 3: %d-operation reduced alphabet), scheme %s; each export repeated %d times; "+
+					"observations per state: worldkit dump over %d IDs + per feature Get(%d keys), Reference(i); per collection and route (FindFeatureByID, FindCollectionsByFeature(every ID), FindFeatures(all), EachFeature) typed items, Count, FindValue and FindValues for every key of the edited collection + %d menu keys (absent, other kinds); features as returned by FindFeatures(all) and EachFeature; Tokens",
+					len(valueMenu), len(schemes), len(seqs), maxLen, nKeyTypes, len(schemes), depth, nOps, nFeatureOps, len(collectionRepresentatives(idsFor(wk.Schemes[1])))+5, nDeep, wk.Schemes[schemes[0]].Name, reps,
+					len(idsFor(wk.Schemes[1]).Universe), len(getKeys), 29)
 		},
 	})
 }
